@@ -14,7 +14,7 @@ RULE = ("operation sequences over 2-3 tags through the real DropInServiceAdaptor
         "rulesets and prekill hooks, base rulesets with all 8 drop-in permission combinations; after each step the tick's call order "
         "(which plugin instances ran, in which order), base enablement, oomd.dropin.added and the hook chosen for probe cgroups must equal "
         "the reference model (LIFO list per base ruleset, fresh instances, all-or-nothing refusal, re-add = replace + move to front, "
-        "hooks newest first before base hooks); model-free cross-check: a sequence followed by `remove T` equals the same sequence without "
+        "hooks newest first before base hooks; in a quarter of the sequences base ruleset r2 is a ruleset-level cgroup ruleset, so enabling/disabling has to reach its per-cgroup instance - run order compared); model-free cross-check: a sequence followed by `remove T` equals the same sequence without "
         "T's operations. quick = 300 random sequences <= 6 ops + all sequences <= 2 ops; thorough = ALL sequences <= 4 ops over an 18-letter "
         "alphabet (exhaustive) + 5000 random <= 10. non-trivial = >=2 drop-ins simultaneously active at some step; distinct by sequence")
 ASSUMPTIONS = ["scripted plugins always return CONTINUE here, so every active ruleset runs its whole chain each tick",
